@@ -1723,6 +1723,8 @@ class Exec:
         for kname, v in st.ghost.items():
             if kname.startswith("view_"):
                 env[kname] = v
+            elif kname.startswith("loopiter_"):
+                env["iter%s_" % kname[9:]] = Seq(v[0], v[1])     # what for-loop number k iterates over (k = its ordinal)
         # parameters and closure variables stay visible through lookup()
         res = []
         for ent in spec.get("inv", []):
@@ -1746,6 +1748,8 @@ class Exec:
         # 1. invariant holds on entry
         st.ghost = dict(st.ghost)
         st.ghost["__entry_%d" % k] = entry
+        if is_for and N is not None:
+            st.ghost["loopiter_%d" % k] = (N, elem)      # readable in postconditions as iter<k>_ (outermost loops only make sense there)
         for lab, f in self.eval_invs(spec, st, 0 if is_for else None, old_st, (N, elem)):
             self.oblig("inv_init", "loop%d:%s" % (k, lab), st, f, line=line)
         # 2. havoc
